@@ -628,3 +628,16 @@ Definition touches_client (c : N) (l : label) : bool :=
   | LUnsub c' => N.eqb c c'
   | _ => false
   end.
+
+(* [step_ok] without its clause about the index a query reports *)
+Definition raft_ok (st : state) (l : label) : bool :=
+  match l with
+  | LSubscribe _ _ _ _ _ => true
+  | _ => step_ok st l
+  end.
+
+Fixpoint all_from (ok : state -> label -> bool) (st : state) (ls : list label) : bool :=
+  match ls with
+  | [] => true
+  | l :: r => ok st l && all_from ok (fst (step st l)) r
+  end.
